@@ -236,6 +236,36 @@ def bounded_native(ck):
                         fails.append({"obligation": "scalar.path", "clause": "scalars take the same path as arrays", "input": {"function": nm + "." + fname, "x": float(x)},
                                       "observed": {"scalar": float(s), "array": float(ref)}})
                         break
+        # dense bitwise comparison of the two copies inside every layer (a one-ulp difference shows only on a fraction of the inputs)
+        rng_ = np.random.default_rng(ck.seed + 5)
+        zz = np.sort(rng_.uniform(0.0, 120.0, 6000))
+        pp = np.exp(rng_.uniform(np.log(1e-3), np.log(101325.0), 6000))
+        for fname, xs_ in (("us_std_atm_pressure_from_altitude", zz), ("us_std_atm_altitude_from_pressure", pp)):
+            a1, a2 = getattr(PR, fname)(xs_.copy()), getattr(AM, fname)(xs_.copy())
+            n += len(xs_)
+            bad_ = ~((a1 == a2) | (np.isnan(a1) & np.isnan(a2)))
+            if bad_.any():
+                j = int(np.argmax(bad_))
+                fails.append({"obligation": "copies.bitwise", "clause": "the two shipped copies agree bit for bit (6000 seeded points across all layers)", "input": {"function": fname, "x": repr(float(xs_[j])), "points that differ": int(bad_.sum())},
+                              "observed": {n1: repr(float(a1[j])), n2: repr(float(a2[j]))}})
+        # very small but positive pressures are not vacuum; batches with an infinite altitude / zero pressure in the middle equal the scalars
+        for mod, nm in ((PR, n1), (AM, n2)):
+            for ptiny in (1e-8, 3e-9, 1e-12, 1e-30, 5e-324):
+                n += 1
+                z_ = mod.us_std_atm_altitude_from_pressure(ptiny)
+                back = mod.us_std_atm_pressure_from_altitude(z_) if np.isfinite(z_) else 0.0
+                if not (np.isfinite(z_) and abs(back - ptiny) <= 1e-6 * ptiny):
+                    fails.append({"obligation": "roundtrip.tiny_pressure", "clause": "every strictly positive pressure maps to a finite altitude and back to itself (1e-6 relative); only zero pressure is vacuum",
+                                  "input": {"function": nm, "P": repr(ptiny)}, "observed": {"altitude": repr(float(z_)), "pressure back": repr(float(back))}})
+            for fname, batch in (("us_std_atm_pressure_from_altitude", np.array([0.0, 5.0, 11.0, np.inf, 25.0, 60.0, 120.0, np.inf, 3.0])), ("us_std_atm_altitude_from_pressure", np.array([101325.0, 0.0, 5000.0, 30.0, 0.0, 1.0]))):
+                f = getattr(mod, fname)
+                n += len(batch)
+                got = np.asarray(f(batch.copy()), dtype=float)
+                want = np.array([float(f(float(x))) for x in batch])
+                if got.shape != want.shape or not np.array_equal(got, want):
+                    j = int(np.argmax(got != want)) if got.shape == want.shape else 0
+                    fails.append({"obligation": "scalar.path", "clause": "a batch with an infinite altitude / zero pressure in the middle gives, element by element, the scalar results",
+                                  "input": {"function": nm + "." + fname, "batch": [repr(float(x)) for x in batch], "element": j}, "observed": {"batch": repr(float(got[j])) if got.shape == want.shape else str(got.shape), "scalar": repr(float(want[j]))}})
         # inputs that are not float64: python / numpy integers, float32 (the cloud maps' type), integer arrays, 2-D arrays
         for mod, nm in ((PR, n1), (AM, n2)):
             for fname, vals in (("us_std_atm_altitude_from_pressure", (101325, 50000, 22632, 1, np.int64(5474), np.int32(868), np.float32(30000.0), np.array([101325, 50000, 1000]), np.array([[80000.0, 20000.0], [500.0, 3.0]], dtype=np.float32))),
